@@ -294,6 +294,12 @@ def run(tier, pid):
                     expected={"allowed": v["allowed"], "nraised": v["nraised"]},
                     observed=tr["obs"],
                 )
+    # 5. executions nobody here constructed: the repository's own suite under the TESTTOOLS_VERIF hooks
+    if pid in ("C01", "C02", "C03"):
+        from . import suitetrace
+
+        suitetrace.run(rep, pid)
+        rep.assume("suite traces: runs whose result is not wrapped by ExtendedToOriginalDecorator, or whose _run_core was stubbed by the test, are skipped")
     rep.extra["programs"] = len(traces)
     rep.extra["flavours"] = list(synth.FLAVOURS)
     rep.assume("user addDetail names are absent from the details at the time of the call; 'reason' is never used")
